@@ -311,7 +311,7 @@ func isSeparator(v ssa.Value) bool {
 // converts by hand, and a failed assertion to starlark.String that is skipped silently drops what the user
 // declared — an `expected_output` that is not compared turns the check into "the command exits 0".
 func ruleStarlarkFieldTypeErrors(c *Check, rule string) {
-	c.Rule(rule, "in the Starlark loader's converters a failed assertion of a declared value to starlark.String never continues on the success path: it returns an error (or the value is one of the explicitly accepted other types)", 4)
+	c.Rule(rule, "in the Starlark loader's converters a failed assertion of a declared value to starlark.String never continues on the success path: it returns an error (or the value is one of the explicitly accepted other types)", 2)
 	n := 0
 	for _, fn := range c.P.Funcs {
 		if !engine.InPackage(fn, "loading") || engine.ErrResultIndex(fn.Signature) < 0 {
